@@ -19,7 +19,11 @@ RULE = ('cases = abstract PELs (PH, UH, 0..40 optional sections of all nine cons
         'section; distinct by bytes')
 
 
-def compare(ck, p, data, real, model, spec, cfg_every=True, label='pel', extra=None):
+FAIL_UD = {'x5a5a': ('raises', ''), 'x1111': ('echo',), 'x2222': ('raises', 'boom'), 'x3333': ('none',), 'x8888': ('import_raises', 'load failure'),
+           'y2222': ('raises_import', 'No module named frobnicate'), 'y3333': ('none',)}
+
+
+def compare(ck, p, data, real, model, spec, cfg_every=True, label='pel', extra=None, allow_plugins=True):
     rp = {'op': 'parsePEL', 'pel': apel.describe(p) if p else None, 'data_hex': data.hex(), 'extra': extra}
     if apel.TOUCHED_SHIPPED[0]:
         # the input reached udparsers.oe500 / udparsers.m2c00 / srcparsers.oe500, which this check's environment (and hence the
@@ -35,6 +39,16 @@ def compare(ck, p, data, real, model, spec, cfg_every=True, label='pel', extra=N
             ck.fail('a well-formed PEL is not decoded', rp | {'actual': real[:3]}, label + '_rejected')
         elif real[2] != spec[1]:
             ck.fail('decoded document differs from what the property prescribes', rp | {'difference': first_diff(real[2], spec[1])}, label + '_doc')
+        elif route_sample(ck, data):
+            # the same document through the COMMAND LINE, by every route that shows one PEL: -f, -a, -j into an empty directory, and -j again
+            # after the file was replaced in place by this PEL (same name, same entry id, older time stamp)
+            for route, got in cli_routes(data, allow_plugins=allow_plugins):
+                ck.count('command-line route %s' % route)
+                if got != spec[1]:
+                    why = got if isinstance(got, str) else first_diff(got, spec[1])
+                    ck.fail('the document shown through the command line (%s) differs from what the property prescribes' % route,
+                            rp | {'route': route, 'difference': str(why)[:300]}, label + '_route_' + route.split()[0])
+                    break
     # ---- correspondence
     if real[:2] == ('error', 'Hang'):
         # the model is total (it always answers); a call of the real decoder that does not return is never in agreement
@@ -47,6 +61,80 @@ def compare(ck, p, data, real, model, spec, cfg_every=True, label='pel', extra=N
         ck.disagree('outcome class differs from model', rp | {'impl': real[:3], 'model': model[:2]})
     elif model[0] == 'doc' and (model[1] != real[1] or model[2] != real[2]):
         ck.disagree('document differs from model', rp | {'difference': first_diff(real[2], model[2]), 'eid': (real[1], model[1])})
+
+
+def route_sample(ck, data):
+    """a deterministic sample of the cases of a run (about one in fifteen, at most 40)"""
+    import hashlib
+    n = ck.dist.get('cases taken through the command line', 0)
+    if n >= 40 or hashlib.sha1(data).digest()[0] % 15 != 0:
+        return False
+    ck.dist['cases taken through the command line'] = n + 1
+    return True
+
+
+def cli_routes(data, allow_plugins=True):
+    """[(route, canonical document | text describing what went wrong)] for one PEL file"""
+    import glob
+    import os
+    import shutil
+    import tempfile
+    import clirun
+    import jsonio
+    import pelbuild
+    P = [] if allow_plugins else ['-P']
+    tmp = tempfile.mkdtemp(prefix='routes_')
+    out = []
+
+    def doc_of(text, pick=None):
+        try:
+            v = json.loads(text, object_pairs_hook=jsonio.pairs_hook)
+            if pick is not None:
+                if not isinstance(v, list) or len(v) != 1:
+                    return 'not a list of one document: %r' % (text[:120],)
+                v = v[0]
+            return jsonio.canon(v)
+        except ValueError as e:
+            return 'not JSON (%s): %r' % (e, text[:120])
+    try:
+        d = os.path.join(tmp, 'pels')
+        os.makedirs(d)
+        f = os.path.join(d, 'one_pel')
+        open(f, 'wb').write(data)
+        so, se, sx = clirun.run_main(['-f', f, '-E'] + P)
+        out.append(('-f', doc_of(so) if sx == 0 else 'exit %d: %s' % (sx, se[-200:])))
+        so, se, sx = clirun.run_main(['-p', d, '-a', '-E'] + P)
+        out.append(('-a', doc_of(so, pick=0) if sx == 0 else 'exit %d: %s' % (sx, se[-200:])))
+        od = os.path.join(tmp, 'out')
+        os.makedirs(od)
+        so, se, sx = clirun.run_main(['-p', d, '-j', '-o', od, '-E'] + P)
+        js = glob.glob(os.path.join(od, '*.json'))
+        out.append(('-j', doc_of(open(js[0]).read()) if sx == 0 and len(js) == 1 else 'exit %d, %d files written: %s' % (sx, len(js), se[-200:])))
+        # replaced in place: another PEL with the same entry id is converted first, then this one takes its place with an OLDER time stamp
+        eid = int.from_bytes(data[44:48], 'big') if len(data) >= 48 else 0
+        other = pelbuild.pel([pelbuild.UH(subsys=0x10, sev=0x20)], eid=eid, creator=data[24:25] or b'O')
+        od2 = os.path.join(tmp, 'out2')
+        os.makedirs(od2)
+        open(f, 'wb').write(other)
+        clirun.run_main(['-p', d, '-j', '-o', od2, '-E'] + P)
+        open(f, 'wb').write(data)
+        old = os.stat(f).st_mtime - 3600
+        os.utime(f, (old, old))
+        so, se, sx = clirun.run_main(['-p', d, '-j', '-o', od2, '-E'] + P)
+        js = glob.glob(os.path.join(od2, '*.json'))
+        out.append(('-j after the file was replaced in place', doc_of(open(js[0]).read()) if sx == 0 and len(js) == 1 else 'exit %d, %d files written: %s' % (sx, len(js), se[-200:])))
+        # after PELs that cannot be decoded (user data in the JSON format that is not UTF-8; a reference code that is not text): what
+        # failed before must not change what is shown for this one
+        d3 = os.path.join(tmp, 'pels3')
+        os.makedirs(d3)
+        open(os.path.join(d3, '0_bad_ud'), 'wb').write(pelbuild.pel([pelbuild.UH(), pelbuild.UD(b'\xff\xfe{"a": 1}', sub=1)], eid=0x0BAD0001))
+        open(os.path.join(d3, '00_bad_src'), 'wb').write(pelbuild.pel([pelbuild.UH(), pelbuild.SRC(asc=b'\xff\xfeBD8D1234')], eid=0x0BAD0002))
+        open(os.path.join(d3, 'one_pel'), 'wb').write(data)
+        so, se, sx = clirun.run_main(['-p', d3, '-a', '-E'] + P)
+        out.append(('-a after PELs that cannot be decoded', doc_of(so, pick=0) if sx == 0 else 'exit %d: %s' % (sx, se[-200:])))
+    finally:
+        shutil.rmtree(tmp, ignore_errors=True)
+    return out
 
 
 def first_diff(a, b, path=''):
@@ -104,6 +192,34 @@ def run(tier, seed):
                 ck.count('kind ' + k)
             compare(ck, p, data, real, model, spec)
         ck.dist['adjacent kind pairs covered'] = len(pairs)
+    finally:
+        env.uninstall()
+    # ---- the same with parser modules that FAIL in every way (the call raises, returns nothing, the module cannot be loaded; an SRC parser
+    # and a callout parser that raise): the failing section keeps its own bytes and whatever follows it is still decoded intact
+    env = apel.PluginEnv(allow=True, ud=FAIL_UD, src={'xsrc': ('raises',), 'ysrc': ('echo',)}, callout={'x': ('raises',)}).install()
+    try:
+        pels = []
+        for _ in range(500 if thorough else 120):
+            p = apel.gen_pel(rng, max_sections=rng.choice([3, 6, 12]))
+            p['ph']['creator'] = ord(rng.choice('xxxy'))
+            for sec in p['sections']:
+                if sec['kind'] in ('ud', 'ed') and rng.random() < 0.8:
+                    sec['hdr']['comp'] = rng.choice([0x1111, 0x2222, 0x2222, 0x3333, 0x3333, 0x8888, 0x9999, 0x5A5A])
+                    if sec['kind'] == 'ed':
+                        sec['creator'] = ord('x')
+            # a failing section is never the last one
+            p['sections'].append({'kind': rng.choice(['ud', 'ed']), 'hdr': dict(apel.gen_hdr(rng), comp=rng.choice([0x2222, 0x3333])), 'payload': apel.gen_payload(rng)[:60] or b'p',
+                                  'creator': ord('x'), 'resv1': 0, 'resv2': 0})
+            p['sections'].append(apel.gen_section(rng))
+            apel.fix_real_plugins(p)
+            pels.append(p)
+        replies = lean_batch([env.tokens()] + ['pelspec %s %s x' % (apel.tok_cfg(), apel.tok_pel(p)) for p in pels])[1:]
+        for p, r in zip(pels, replies):
+            data = r.bytes()
+            real = apel.real_decode(data)
+            ck.case(key=('failing-parsers', data), sample=None)
+            ck.count('failing parser modules: %s' % real[0])
+            compare(ck, p, data, real, apel.dec_outcome(r), apel.dec_spec(r), label='pel_failing_parser')
     finally:
         env.uninstall()
     return ck.finish(RULE, TRUSTED, ASSUME)
